@@ -32,6 +32,14 @@ LIB_PORT = 57120
 XPORT = 57130
 ARGVALS = [0, 1, 2, -3, 0.5, 2.25, 'x', 'yy', 7]
 
+# decoding errors of the strict reference decoder that leave no room for a
+# lenient reading (the packet is cut short inside something it announces)
+# (truncated floats are padded by the library on purpose: some senders omit
+# trailing zero bytes)
+UNAMBIGUOUS = ('unterminated string', 'truncated int', 'truncated int64',
+               'truncated timetag', 'truncated blob size', 'bad blob size',
+               'truncated bundle header', 'truncated element size')
+
 COMPONENTS = {
     'real': 'sc3 OscUdpInterface receive thread, _osclib decoder, '
             'SystemClock dispatch, responders (OscFunc, dispatchers, '
@@ -107,7 +115,12 @@ def gen_case(tp, tier):
         r = tp.draw(100)
         if r >= 70 and not nresp:
             r = 0
-        if r < 22 and nresp < 10:
+        if r < 3 and 0 < nresp < 10:
+            # another responder with the very same callback object, path and
+            # dispatcher as an earlier one
+            ops.append(['twin', nresp, tp.draw(nresp)])
+            nresp += 1
+        elif r < 22 and nresp < 10:
             src = None
             if tp.draw(3) == 0:
                 s = tp.choice(SRCS)
@@ -260,6 +273,8 @@ class Resp:
         self.fired = 0
         self.ver = 0
         self.permanent = False
+        self.label = rid        # who the callback says it is (a callback
+        self.fver = 0           # object may be shared by several responders)
 
 
 class Registry:
@@ -394,6 +409,7 @@ def run_case(case, tape, ctx):
 
     reg = Registry()
     robj = {}
+    funcs = {}          # rid -> the callback object it currently uses
     inv = []           # invocation records
 
     def make_func(rid, ver):
@@ -505,8 +521,19 @@ def run_case(case, tape, ctx):
                          f'set to {mut[1]} ({err}) still invoked '
                          f'{len(got)} responder(s)')
                 return False
+            elif got and mut is not None and mut[0] == 'trunc' \
+                    and any(x in err for x in UNAMBIGUOUS):
+                # the datagram ends in the middle of an item the packet
+                # itself announces: no reading of OSC accepts it
+                viol.add('C18-3', 'truncated-datagram-dispatched',
+                         f'a datagram that ends inside an announced item '
+                         f'({err}) invoked {len(got)} responder(s) with '
+                         f'{[g.get("msg") for g in got][:2]}')
+                return False
             elif got:
                 bump('lenient-accept')
+                bump('lenient-accept-err-' + err.split(' ')[0] + '-'
+                     + err.split(' ')[-1])
                 bump('lenient-accept-' + (mut[0] if mut else 'none')
                      + (f'-{mut[1]}' if mut and mut[0] == 'len' else ''))
                 for g in got:           # keep the model in step
@@ -545,7 +572,8 @@ def run_case(case, tape, ctx):
                 for rid, grp in exp:
                     hit = None
                     for g in mine:
-                        if g['rid'] == rid and not g.get('_used'):
+                        if g['rid'] == reg.resp[rid].label \
+                                and not g.get('_used'):
                             hit = g
                             break
                     if hit is None:
@@ -563,7 +591,7 @@ def run_case(case, tape, ctx):
                             f'{[g["rid"] for g in mine]}')
                         return False
                     hit['_used'] = True
-                    pos = got.index(hit)
+                    pos = next(i for i, x in enumerate(got) if x is hit)
                     if pos < pos_in_group.get(grp, -1):
                         viol.add('C18-1', f'order-{grp[0]}',
                                  f'message {m.aslist()}: responders on '
@@ -572,7 +600,7 @@ def run_case(case, tape, ctx):
                                  f'registered {exp_ids})')
                         return False
                     pos_in_group[grp] = pos
-                    check_args(hit, m, tt, src, port, t_send)
+                    check_args(hit, m, tt, src, port, t_send, rid)
                     reg.fired(rid)
                     bump('invocations-checked')
                 for g in mine:
@@ -603,14 +631,14 @@ def run_case(case, tape, ctx):
             return False
         return True
 
-    def check_args(g, m, tt, src, port, t_send):
+    def check_args(g, m, tt, src, port, t_send, rid=None):
         if g['host'] != src[0] or g['port'] != src[1] or g['rport'] != port:
             viol.add('C18-2', 'sender-or-port-argument',
                      f'responder {g["rid"]} got sender {g["host"]}:'
                      f'{g["port"]} port {g["rport"]}, message came from '
                      f'{src} on {port}')
-        r = reg.resp.get(g['rid'])
-        if r is not None and g['ver'] != r.ver:
+        r = reg.resp.get(g['rid'] if rid is None else rid)
+        if r is not None and g['ver'] != r.fver:
             viol.add('C18-2', 'stale-function',
                      f'responder {g["rid"]} ran function version '
                      f'{g["ver"]}, current is {r.ver}')
@@ -675,11 +703,27 @@ def run_case(case, tape, ctx):
                 tmpl = [PREDS[x[1]] if isinstance(x, list) else x
                         for x in template]
             ctor = srpd.OscFunc if rkind == 'exact' else srpd.OscFunc.matching
-            robj[rid] = ctor(make_func(rid, 0), path, sid, rport,
+            funcs[rid] = make_func(rid, 0)
+            robj[rid] = ctor(funcs[rid], path, sid, rport,
                              arg_template=tmpl)
             if oneshot:
                 robj[rid].one_shot()
             bump('responders')
+        elif kind == 'twin':
+            _, rid, oid = op
+            o = reg.resp.get(oid)
+            if o is None or o.freed or o.src is not None \
+                    or o.rport is not None or o.template is not None \
+                    or o.oneshot or o.selfact or oid not in funcs:
+                continue
+            r = Resp(rid, o.kind, o.path, None, None, None, False, None)
+            r.label, r.fver = o.label, o.fver
+            reg.add(r)
+            ctor = srpd.OscFunc if o.kind == 'exact' \
+                else srpd.OscFunc.matching
+            robj[rid] = ctor(funcs[oid], o.path)
+            funcs[rid] = funcs[oid]
+            bump('responders-sharing-a-callback')
         elif kind in ('enable', 'disable', 'free'):
             rid = op[1]
             if rid not in robj:
@@ -703,7 +747,10 @@ def run_case(case, tape, ctx):
                     or reg.resp[rid].freed or not reg.resp[rid].enabled:
                 continue
             reg.resp[rid].ver += 1
-            robj[rid].func = make_func(rid, reg.resp[rid].ver)
+            reg.resp[rid].label = rid
+            reg.resp[rid].fver = reg.resp[rid].ver
+            funcs[rid] = make_func(rid, reg.resp[rid].ver)
+            robj[rid].func = funcs[rid]
             bump('op-setfunc')
         elif kind == 'cmdperiod':
             sac.CmdPeriod.run()
